@@ -271,6 +271,45 @@ fn op(allow_queries: bool) -> BoxedStrategy<Op> {
     }
 }
 
+/// Projection of an arbitrary decoded case into the generators' domain (fuzz targets).
+fn normalise_mock(mut case: MockCase) -> MockCase {
+    case.balances.truncate(4);
+    while case.balances.len() < 2 {
+        case.balances.push(10_000);
+    }
+    for b in &mut case.balances {
+        *b %= 200_000_000;
+    }
+    case.instruments.truncate(3);
+    if case.instruments.is_empty() {
+        case.instruments.push((0, 1));
+    }
+    case.latency_ms %= 50;
+    case.ops.truncate(40);
+    for op in &mut case.ops {
+        if let Op::Open { inst, price_c, size, .. } = op {
+            *inst %= 3;
+            *price_c = 1 + *price_c % 99_999;
+            if let Size::Explicit(q) = size {
+                *q = 1 + *q % 199_999;
+            }
+        }
+    }
+    if case.ops.is_empty() {
+        case.ops.push(Op::QueryBalances);
+    }
+    for c in &mut case.clock {
+        *c %= 40;
+    }
+    for c in &mut case.since {
+        *c %= 40;
+    }
+    case.clock.truncate(10);
+    case.abandon.truncate(10);
+    case.since.truncate(6);
+    case
+}
+
 fn case_strategy(max_ops: usize, queries: bool) -> BoxedStrategy<MockCase> {
     (
         prop::collection::vec(prop_oneof![4 => 0u32..200_000_000, 1 => Just(0u32), 1 => Just(10_000u32)], 2..=4),
@@ -289,6 +328,10 @@ fn case_strategy(max_ops: usize, queries: bool) -> BoxedStrategy<MockCase> {
 impl Check for MockLedger {
     type Case = MockCase;
     const NAME: &'static str = "mock_ledger";
+
+    fn normalise(case: MockCase) -> MockCase {
+        normalise_mock(case)
+    }
 
     fn strategy(tier: Tier) -> BoxedStrategy<MockCase> {
         case_strategy(if tier == Tier::Quick { 30 } else { 60 }, false)
@@ -380,6 +423,10 @@ pub struct MockExchangeRun;
 impl Check for MockExchangeRun {
     type Case = MockCase;
     const NAME: &'static str = "mock_exchange_run";
+
+    fn normalise(case: MockCase) -> MockCase {
+        normalise_mock(case)
+    }
 
     fn strategy(tier: Tier) -> BoxedStrategy<MockCase> {
         case_strategy(if tier == Tier::Quick { 20 } else { 40 }, true)
